@@ -29,7 +29,7 @@ open Apko Apko.Path Apko.FS Apko.Formats
 def defaultShell : Text := ['/', 'b', 'i', 'n', '/', 's', 'h']
 def homePrefix : Text := ['/', 'h', 'o', 'm', 'e', '/']
 def passwordX : Text := ['x']
-def accountInfo : Text := "Account created by apko".toList
+def accountInfo : Text := ['A', 'c', 'c', 'o', 'u', 'n', 't', ' ', 'c', 'r', 'e', 'a', 't', 'e', 'd', ' ', 'b', 'y', ' ', 'a', 'p', 'k', 'o']
 def devNull : Text := ['/', 'd', 'e', 'v', '/', 'n', 'u', 'l', 'l']
 /-- `filepath.Join("etc", "passwd")` -/
 def passwdPath : Text := ['e', 't', 'c', '/', 'p', 'a', 's', 's', 'w', 'd']
@@ -187,11 +187,11 @@ structure Mutation where
   recursive : Bool := false
   deriving Repr, DecidableEq
 
-def tDirectory : Text := "directory".toList
-def tEmptyFile : Text := "empty-file".toList
-def tHardlink : Text := "hardlink".toList
-def tSymlink : Text := "symlink".toList
-def tPermissions : Text := "permissions".toList
+def tDirectory : Text := ['d', 'i', 'r', 'e', 'c', 't', 'o', 'r', 'y']
+def tEmptyFile : Text := ['e', 'm', 'p', 't', 'y', '-', 'f', 'i', 'l', 'e']
+def tHardlink : Text := ['h', 'a', 'r', 'd', 'l', 'i', 'n', 'k']
+def tSymlink : Text := ['s', 'y', 'm', 'l', 'i', 'n', 'k']
+def tPermissions : Text := ['p', 'e', 'r', 'm', 'i', 's', 's', 'i', 'o', 'n', 's']
 
 /-- Unix permission bits of the configuration as an `fs.FileMode`: the nine permission bits stay,
 set-user-id, set-group-id and sticky move to `ModeSetuid`, `ModeSetgid`, `ModeSticky`. -/
@@ -309,7 +309,7 @@ def unixPerm (mode : Nat) : Nat :=
 def wantPerm (perms : Nat) : Nat := perms &&& 0o7777
 
 def ownerOK (n : Inode) (uid gid : Nat) : Bool := n.uid = (uid : Int) && n.gid = (gid : Int)
-def permOK (n : Inode) (perms : Nat) : Bool := unixPerm n.mode = wantPerm perms
+def permBitsOK (n : Inode) (perms : Nat) : Bool := unixPerm n.mode = wantPerm perms
 
 /-- the directory entry itself (the last component is not followed) -/
 def entryOf (c : Cfg) (fs : FS) (path : Text) : Option Ino :=
@@ -328,7 +328,7 @@ def tr (s : String) : Text := s.toList
 
 /-- failed demands for the attributes of one node -/
 def attrFails (n : Inode) (m : Mutation) (tag : String) : List Text :=
-  (if permOK n m.perms then [] else [tr (tag ++ "perm")]) ++
+  (if permBitsOK n m.perms then [] else [tr (tag ++ "perm")]) ++
   (if ownerOK n m.uid m.gid then [] else [tr (tag ++ "owner")])
 
 /-- every entry below directory `i` (not following links): owner as declared, and permission
@@ -386,9 +386,9 @@ def readText (c : Cfg) (fs : FS) (p : Text) : Text :=
 /-- the entry the property expects for a configured user (its own statement of the defaults) -/
 def specUser (u : UserCfg) : User :=
   { name := u.name, password := ['x'], uid := u.uid, gid := u.gid.getD u.uid,
-    info := "Account created by apko".toList,
-    home := if u.home = [] then "/home/".toList ++ u.name else u.home,
-    shell := if u.shell = [] then "/bin/sh".toList else u.shell }
+    info := ['A', 'c', 'c', 'o', 'u', 'n', 't', ' ', 'c', 'r', 'e', 'a', 't', 'e', 'd', ' ', 'b', 'y', ' ', 'a', 'p', 'k', 'o'],
+    home := if u.home = [] then ['/', 'h', 'o', 'm', 'e', '/'] ++ u.name else u.home,
+    shell := if u.shell = [] then ['/', 'b', 'i', 'n', '/', 's', 'h'] else u.shell }
 
 def specGroup (g : GroupCfg) : Group := { name := g.name, password := ['x'], gid := g.gid, members := g.members }
 
